@@ -66,7 +66,7 @@ func directedNesting(c *ctx) {
 	kinds := []kind{
 		{"<b>", "</b>"}, {"<a href=\"http://x/\">", "</a>"}, {"<a>", "</a>"}, {"<u>", "</u>"}, {"<object>", "</object>"},
 		{"<my-el>", "</my-el>"}, {"<br>", ""}, {"<img>", ""}, {"<iframe>", "</iframe>"}, {"<my-x id=1>", "</my-x>"}, {"<span>", "</span>"},
-		{"<frameset>", "</frameset>"}, {"<object data=x>", "</object>"},
+		{"<frameset>", "</frameset>"}, {"<object data=x>", "</object>"}, {"<script>", "</script>"}, {"<style>", "</style>"}, {"<x-caf\u00e9>", "</x-caf\u00e9>"},
 	}
 	policies := [][]*bmx.Op{
 		{{Kind: "AE", Names: []string{"b", "br"}}, {Kind: "AA", Names: []string{"href"}, Scope: "E", ScopeEl: []string{"a"}}, {Kind: "AA", Names: []string{"src"}, Scope: "E", ScopeEl: []string{"img"}},
@@ -74,6 +74,8 @@ func directedNesting(c *ctx) {
 		{{Kind: "AE", Names: []string{"b", "br", "span"}}, {Kind: "AA", Names: []string{"href"}, Scope: "E", ScopeEl: []string{"a"}}, {Kind: "SK", Names: []string{"u", "span", "br"}},
 			{Kind: "AK", Names: []string{"object"}}, {Kind: "AA", Names: []string{"id"}, Scope: "G"}, {Kind: "SP", Flag: c.r.Intn(2) == 0}},
 		{{Kind: "AA", Names: []string{"id"}, Scope: "M", ScopeRe: bmx.NewRE(`^my-`)}, {Kind: "AE", Names: []string{"iframe", "object"}}, {Kind: "AA", Empty: true, Scope: "M", ScopeRe: bmx.NewRE(`^my-el$`)}},
+		// AllowUnsafe: script/style are ordinary elements, also inside skipped ones
+		{{Kind: "UN", Flag: true}, {Kind: "AE", Names: []string{"script", "b"}}, {Kind: "AA", Names: []string{"href"}, Scope: "E", ScopeEl: []string{"a"}}},
 		// an element of the skip-content set that is allowed (with attributes, or by a pattern), inside disallowed skip-content elements
 		{{Kind: "AE", Names: []string{"b"}}, {Kind: "AA", Names: []string{"data"}, Scope: "E", ScopeEl: []string{"object"}}, {Kind: "SK", Names: []string{"u", "my-el"}},
 			{Kind: "AEM", Re: bmx.NewRE(`^my-`)}, {Kind: "AA", Names: []string{"href"}, Scope: "E", ScopeEl: []string{"a"}}},
@@ -93,6 +95,20 @@ func directedNesting(c *ctx) {
 				doc += "t" + closers[i]
 			}
 			c.san(pid, pol, []byte(doc))
+			if len(closers) >= 2 && t%3 == 0 {
+				// the two innermost end tags in the wrong order (tag soup must not break the bookkeeping)
+				soup := prefix
+				for i := len(closers) - 1; i >= 0; i-- {
+					j := i
+					if i == len(closers)-1 {
+						j = i - 1
+					} else if i == len(closers)-2 {
+						j = i + 1
+					}
+					soup += "t" + closers[j]
+				}
+				c.san(pid, pol, []byte(soup+"</a></b>"))
+			}
 			if d == depth {
 				return
 			}
@@ -135,7 +151,7 @@ func directedNesting(c *ctx) {
 func directedC11(c *ctx) {
 	hrefs := []string{"http://example.com/", "/local", "//host/x", "http:\\\\host", "mailto:a@b.c", "#f", "HTTPS://UP/", "http:/nohost", "",
 		"/%2Fexample.com/caf\u00e9", "%2F%2Fexample.com/x|y", "/%2fevil.example/a^b"}
-	rels := []string{"", "nofollow", "noopener", "noreferrer", "nofollow noopener noreferrer", "xnofollowx", "NOFOLLOW", "author", "noopenerx", "NoOpener", "nofollow x", "a\tnofollow", "nofollow nofollow"}
+	rels := []string{"external\u00a0nofollow", "noopener\vnofollow noreferrer\u0085x", "", "nofollow", "noopener", "noreferrer", "nofollow noopener noreferrer", "xnofollowx", "NOFOLLOW", "author", "noopenerx", "NoOpener", "nofollow x", "a\tnofollow", "nofollow nofollow"}
 	targets := []string{"_blank", "_BLANK", "_self", "", "_blanK"}
 	els := []string{"a", "area", "link", "base", "b"}
 	for opt := 0; opt < 32; opt++ {
@@ -143,6 +159,13 @@ func directedC11(c *ctx) {
 			{Kind: "AE", Names: els}, {Kind: "AA", Names: []string{"href", "rel", "target", "id"}, Scope: "G"},
 			{Kind: "US", Names: []string{"http", "https", "mailto"}}, {Kind: "RU", Flag: true},
 			{Kind: "NF", Flag: opt&1 != 0}, {Kind: "NFQ", Flag: opt&2 != 0}, {Kind: "NR", Flag: opt&4 != 0}, {Kind: "NRQ", Flag: opt&8 != 0}, {Kind: "TB", Flag: opt&16 != 0},
+		}
+		if opt%5 == 3 {
+			// URL checking switched off again after the link options were set: the options stay on
+			ops = append(ops, &bmx.Op{Kind: "PU", Flag: false})
+		}
+		if opt%7 == 2 {
+			ops = append(ops, &bmx.Op{Kind: "CO", Flag: true}, &bmx.Op{Kind: "AA", Names: []string{"crossorigin"}, Scope: "E", ScopeEl: []string{"link"}})
 		}
 		pid, pol := c.policy(ops)
 		per := c.n / 32
@@ -226,6 +249,18 @@ func directedC12(c *ctx) {
 }
 
 // C03: every listed position × obfuscated URLs × scheme policies
+func directedC12extra(c *ctx) {
+	for opt := 0; opt < 8; opt++ {
+		ops := []*bmx.Op{{Kind: "AE", Names: []string{"link", "img", "a"}}, {Kind: "AA", Names: []string{"href", "src", "rel", "crossorigin", "id"}, Scope: "G"},
+			{Kind: "US", Names: []string{"https"}}, {Kind: "CO", Flag: true}, {Kind: "NF", Flag: opt&1 != 0}, {Kind: "NR", Flag: opt&2 != 0}, {Kind: "TB", Flag: opt&4 != 0}}
+		pid, pol := c.policy(ops)
+		for _, d := range []string{"<link id=1 crossorigin=\"use-credentials\">", "<link rel=stylesheet href=\"javascript:x\" crossorigin=\"use-credentials\">", "<link id=2>",
+			"<link href=\"https://a.b/c.css\" crossorigin=x>", "<img src=\"javascript:alert(1)\">", "<img src=\"javascript:alert(1)\" id=3 crossorigin=use-credentials>", "<a id=4 crossorigin=x>t</a>"} {
+			c.san(pid, pol, []byte(d))
+		}
+	}
+}
+
 func directedC03(c *ctx) {
 	pos := [][2]string{{"a", "href"}, {"area", "href"}, {"base", "href"}, {"link", "href"}, {"blockquote", "cite"}, {"del", "cite"}, {"ins", "cite"}, {"q", "cite"},
 		{"audio", "src"}, {"embed", "src"}, {"iframe", "src"}, {"img", "src"}, {"input", "src"}, {"script", "src"}, {"source", "src"}, {"track", "src"}, {"video", "src"},
